@@ -398,8 +398,11 @@ Definition af_sc := sc_items (PacketAdaptationField_HasSplicingCountdown af) (Pa
 Definition af_tpd := tpd_items (PacketAdaptationField_HasTransportPrivateData af) (PacketAdaptationField_TransportPrivateData af).
 Definition af_ext := ext_items (PacketAdaptationField_HasAdaptationExtensionField af) (PacketAdaptationField_AdaptationExtensionField af).
 
-Definition af_body_items : list witem :=
-  af_head ++ af_flags ++ af_pcr ++ af_opcr ++ af_sc ++ af_tpd ++ af_ext ++ af_stuff.
+(* everything in front of the stuffing, followed by [tail] *)
+Definition af_items_with (tail : list witem) : list witem :=
+  af_head ++ af_flags ++ af_pcr ++ af_opcr ++ af_sc ++ af_tpd ++ af_ext ++ tail.
+Definition af_body_items : list witem := af_items_with af_stuff.
+Definition af_prefix_items : list witem := af_items_with [].
 
 Definition n_pcr := pcr_len (PacketAdaptationField_HasPCR af).
 Definition n_opcr := pcr_len (PacketAdaptationField_HasOPCR af).
@@ -475,7 +478,7 @@ Proof. apply repeat_wu8_aligned. Qed.
 Lemma af_body_aligned : aligned (af_body_items af) (Z.to_nat (1 + ref_af_length af)).
 Proof.
   destruct (af_part_lens_nonneg af W) as (N1 & N2 & N3 & N4 & N5). pose proof (wfa_stuff af W) as N6.
-  rewrite (af_len_split af NS). unfold af_body_items.
+  rewrite (af_len_split af NS). unfold af_body_items, af_items_with.
   replace (Z.to_nat (1 + (1 + n_pcr af + n_opcr af + n_sc af + n_tpd af + n_ext af + PacketAdaptationField_StuffingLength af)))
     with (1 + (1 + (Z.to_nat (n_pcr af) + (Z.to_nat (n_opcr af) + (Z.to_nat (n_sc af) + (Z.to_nat (n_tpd af) +
           (Z.to_nat (n_ext af) + Z.to_nat (PacketAdaptationField_StuffingLength af))))))))%nat by lia.
@@ -491,20 +494,20 @@ Proof.
 Qed.
 
 (* the parser stops in front of the stuffing bytes and derives their number from adaptation_field_length *)
-Lemma parse_af_located bs k : ref_af_length af <= 255 ->
-  located bs k (bytes_of_items (af_body_items af)) ->
+Lemma parse_af_with_located tail nt bs k : aligned tail nt -> ref_af_length af <= 255 ->
+  located bs k (bytes_of_items (af_items_with af tail)) ->
   parse_packet_adaptation_field (mk_iter bs k) =
   Ok (observed_af af, mk_iter bs (k + 1 + ref_af_length af - PacketAdaptationField_StuffingLength af)).
 Proof.
-  intros Hle Hl.
+  intros A6 Hle Hl.
   destruct (af_part_lens_nonneg af W) as (N1 & N2 & N3 & N4 & N5). pose proof (wfa_stuff af W) as N6.
   pose proof (pcr_items_aligned (PacketAdaptationField_HasPCR af) (PacketAdaptationField_PCR af)) as A1.
   pose proof (pcr_items_aligned (PacketAdaptationField_HasOPCR af) (PacketAdaptationField_OPCR af)) as A2.
   pose proof (sc_items_aligned (PacketAdaptationField_HasSplicingCountdown af) (PacketAdaptationField_SpliceCountdown af)) as A3.
   pose proof (tpd_items_aligned _ _ (wfa_tpd af W)) as A4.
   pose proof (ext_items_aligned _ _ (wfa_ext af W)) as A5.
-  pose proof af_stuff_aligned as A6. pose proof af_flags_aligned as B1.
-  unfold af_body_items in Hl.
+  pose proof af_flags_aligned as B1.
+  unfold af_items_with in Hl.
   apply (located_items bs k _ _ 1 (wu8_aligned _)) in Hl;
     [|repeat apply items_bytes_ok_app; [apply B1|apply A1|apply A2|apply A3|apply A4|apply A5|apply A6]].
   destruct Hl as [L0 Hl].
@@ -545,5 +548,18 @@ Proof.
   unfold iret, observed_af. rewrite NS. f_equal. f_equal; [|f_equal; fold (n_pcr af) (n_opcr af) (n_sc af) (n_tpd af) (n_ext af); lia].
   f_equal. fold (n_pcr af) (n_opcr af) (n_sc af) (n_tpd af) (n_ext af). lia.
 Qed.
+
+Lemma parse_af_located bs k : ref_af_length af <= 255 ->
+  located bs k (bytes_of_items (af_body_items af)) ->
+  parse_packet_adaptation_field (mk_iter bs k) =
+  Ok (observed_af af, mk_iter bs (k + 1 + ref_af_length af - PacketAdaptationField_StuffingLength af)).
+Proof. apply (parse_af_with_located _ _ bs k af_stuff_aligned). Qed.
+
+(* the same for what precedes the stuffing alone: the stuffing bytes themselves are never read *)
+Lemma parse_af_prefix_located bs k : ref_af_length af <= 255 ->
+  located bs k (bytes_of_items (af_prefix_items af)) ->
+  parse_packet_adaptation_field (mk_iter bs k) =
+  Ok (observed_af af, mk_iter bs (k + 1 + ref_af_length af - PacketAdaptationField_StuffingLength af)).
+Proof. apply (parse_af_with_located _ _ bs k aligned_nil). Qed.
 
 End AF2.
